@@ -956,6 +956,14 @@ func oracle(args []string) {
 				continue
 			}
 		}
+		if i%11 == 5 {
+			// a file whose header line depends on the header's own copy of the options (10-character origin / destination under the bypass flags)
+			if g := bypassValid(r, f); g != nil {
+				sum.Dist["header-bypass"]++
+				run(g, label+":header-bypass")
+				continue
+			}
+		}
 		if i%3 == 2 {
 			o := randOpts(r)
 			applyOpts(f, o)
